@@ -596,6 +596,14 @@ func runORD09(p *Prog, r *RuleRun) {
 			if isJoin, last, ok := joinLast(v); isJoin && ok {
 				return AV{Tag: "path:" + last}, true
 			}
+			// <final path> + ".tmp": a sibling of the named file
+			if bo, ok := v.(*ssa.BinOp); ok && bo.Op == token.ADD {
+				if ax := cx.Eval(bo.X, f); strings.HasPrefix(ax.Tag, "path:") {
+					if s, ok := strArg(cx, bo.Y, f); ok {
+						return AV{Tag: ax.Tag + s}, true
+					}
+				}
+			}
 			return AV{}, false
 		},
 		OnEvent: func(cx *Ctx, ev, phase string, ins ssa.Instruction, f *Fact) {
